@@ -1,5 +1,6 @@
 (* DC09.v — dispatch entries of property C09 (consistency between point lookup, zoom change, merge and overlap check).
-   Every entry's Go invoker performs several related calls of the REAL functions and returns all results;
+   Every entry's Go invoker performs several related calls of the REAL functions and returns all results; the entry CallHistory runs a
+   whole list of such steps (and unjudged caller actions) through one caller and judges each step as a standalone case;
    corr  = each result equals what the composed models (PointF + libm oracle, ChangeZoom, Merge, Consistency.overlap_check_api) predict
            (zoom-change results are put by the invoker into the model's loop order — y, then x, then f — and compared as lists),
            AND the validated assumption of the latitude theorems holds on this case (the libm float m is finite with 0 <= m < 2);
@@ -290,8 +291,73 @@ Definition d_ladder (oracle : oracle_t) (args : list val) (obs : val) : verdict 
   | _ => bad_case
   end.
 
-Definition table_C09 : table :=
+Definition base_table_C09 : table :=
   [("PointNesting", d_nesting); ("ZoomInOut", fun _ => d_in_out); ("MergeDescendants", fun _ => d_merge_desc); ("PointLadder", d_ladder)].
+
+(* ================================================================================================================== *)
+(* CallHistory: [scribble?; steps] ↦ the list of the steps' observations. step = [name; arguments]; all steps are made back to back by ONE
+   caller (same point objects, same ID buffer, refilled in place; with scribble? = true the caller overwrites its inputs and the returned
+   slices after every library call), after a fixed priming sequence. A step named like one of the four entries is judged EXACTLY as that
+   entry's standalone case (the models keep no state: Consistency.history_is_stateless, history_steps_independent below); a step "call-*" is
+   a caller action whose results are thrown away (observation nil, neutral verdict). An answer that depends on what was called before —
+   a memo keyed on part of the arguments, state written before validation, a result aliasing library or caller memory, a scratch buffer
+   that is not reset — shows as a failure of the step that received it. *)
+(* ================================================================================================================== *)
+Definition is_action (name : string) : bool := prefix "call-" name.
+Definition neutral : verdict := mkv true true "-" VNil.
+Definition d_step (oracle : oracle_t) (st ob : val) : verdict :=
+  match st with
+  | VL [VS name; VL sargs] =>
+      if is_action name then (match ob with VNil => neutral | _ => bad_case end)
+      else run_table base_table_C09 oracle name sargs ob
+  | _ => bad_case
+  end.
+Definition is_judged (st : val) : bool := match st with VL [VS name; VL _] => negb (is_action name) | _ => false end.
+Fixpoint map2 {A B C} (f : A -> B -> C) (a : list A) (b : list B) : list C :=
+  match a, b with x :: r, y :: s => f x y :: map2 f r s | _, _ => [] end.
+Definition judge_history (oracle : oracle_t) (steps obss : list val) : list verdict := map2 (d_step oracle) steps obss.
+Definition has_class (c : string) (v : verdict) : bool := String.eqb (v_class v) c.
+Definition d_history (oracle : oracle_t) (args : list val) (obs : val) : verdict :=
+  match args, obs with
+  | [VB _; VL steps], VL obss =>
+      if negb (Nat.eqb (List.length steps) (List.length obss)) || negb (existsb is_judged steps) then bad_case
+      else
+        let vs := judge_history oracle steps obss in
+        if existsb (has_class "bad-case") vs then bad_case
+        else if existsb (has_class "skipped") vs then bad_case          (* histories are generated under the size caps *)
+        else
+          let unexcused := existsb (fun v => negb (v_prop v) && has_class "-" v) vs in
+          let cls := if unexcused then "-"
+                     else match find (fun v => negb (has_class "-" v)) vs with Some v => v_class v | None => "-" end in
+          mkv (forallb v_corr vs) (forallb v_prop vs) cls (VL (map v_model vs))
+  | _, _ => bad_case
+  end.
+
+Definition table_C09 : table := (base_table_C09 ++ [("CallHistory", d_history)])%list.
+
+(* every step of a history is judged as the same step on its own: the verdict does not depend on the other steps *)
+Theorem history_steps_independent oracle steps obss i st ob :
+  nth_error steps i = Some st -> nth_error obss i = Some ob -> nth_error (judge_history oracle steps obss) i = Some (d_step oracle st ob).
+Proof.
+  unfold judge_history. revert obss i. induction steps as [|a r IH]; intros obss i; [destruct i; discriminate|].
+  destruct obss as [|b s]; [destruct i; discriminate|]. destruct i as [|i]; cbn [nth_error map2].
+  - intros [= ->] [= ->]. reflexivity.
+  - apply IH.
+Qed.
+(* a history verdict with prop = true under class "-" means that EVERY step's own verdict has prop = true *)
+Theorem d_history_verdict oracle b steps obss :
+  v_prop (d_history oracle [VB b; VL steps] (VL obss)) = true ->
+  List.length steps = List.length obss /\ forall i st ob, nth_error steps i = Some st -> nth_error obss i = Some ob -> v_prop (d_step oracle st ob) = true.
+Proof.
+  unfold d_history.
+  destruct (Nat.eqb (List.length steps) (List.length obss)) eqn:L; cbn [negb orb]; [|discriminate].
+  destruct (existsb is_judged steps); cbn [negb]; [|discriminate].
+  destruct (existsb (has_class "bad-case") (judge_history oracle steps obss)); [discriminate|].
+  destruct (existsb (has_class "skipped") (judge_history oracle steps obss)); [discriminate|].
+  cbn [v_prop mkv]. intros P. split; [now apply Nat.eqb_eq|].
+  intros i st ob E1 E2. rewrite forallb_forall in P. apply P.
+  apply (nth_error_In _ i). now apply history_steps_independent.
+Qed.
 
 (* ================================================================================================================== *)
 (* What a verdict means: prop = true under class "-" is either the documented error on invalid arguments, or the       *)
